@@ -31,21 +31,32 @@ THEOREMS = [
     'C05.coherent_fresh', 'C05.hist_wrap_reconstruct', 'C05.hist_wrap_inside', 'C05.normalizeS_eq_normalize',
     'C05.hist_normalize', 'C05.zeroSmall_eq_self', 'C05.maxAbs_zeroSmall', 'C05.zeroSmall_idem', 'C05.clean_stepC',
     'C05.clean_runC', 'C05.hist_wrap_full',
+    # cross-cutting round: lengths/angles in the code's own terms, clean-up of the setter inside normalize
+    'C05.lengths_angles_of_gram', 'C05.normalize_lengths_angles', 'C05.zeroSmall_flipC', 'C05.hist_normalize_full',
 ]
 PARTIAL = {
     'input_left_as_it_was': 'a heap fact (aliasing/mutation), true by construction of the functional model and '
                             'therefore not a theorem; checked on the implementation in every run by a bitwise '
-                            'snapshot of the input system and numpy.shares_memory on every per-atom array and the box',
-    'lengths_and_angles': 'stated as equality of the Gram matrix (squared lengths, dot products) and of the '
-                          'determinant; lengths and angles are sqrt/arccos of these (not formed in the model)',
+                            'snapshot of the input system, numpy.shares_memory on every per-atom array and the box, and '
+                            'by scribbling over everything a call returned / was handed before the next call',
+    'carried_properties': 'per-atom properties, symbols, masses and pbc are not part of the model (it has the box, pbc '
+                          'and positions only); that wrap / normalize hand them on bit for bit (vector and tensor '
+                          'properties are NOT rotated by normalize: neither the docstring nor the property asks for it) '
+                          'is checked on the implementation in every run',
     'setter_clean_up': 'the "zero out near zero terms" step of the Box.vects setter (components below 1e-9 of the '
                        'largest one are set to 0) is part of the object-level model (zeroSmall) and of the '
                        'correspondence, but the wrap_*/normalize_* theorems are about the functional model without it: '
-                       'they transfer to the object under the explicit hypothesis that the clean-up is inactive '
-                       '(hist_wrap_inside: hclean; hist_normalize: hc1-hc3; zeroSmall_eq_self says when; for a fully periodic wrap '
-                       'the hypothesis is discharged: zeroSmall_idem, clean_runC, hist_wrap_full). Where it is '
-                       'active the real code does change a cell vector by up to 1e-9 of the largest component; the '
-                       'oracle grants exactly that much and only where a component became exactly 0',
+                       'they transfer to the object under the explicit hypothesis that the clean-up is inactive. '
+                       'Discharged: fully periodic wrap (hist_wrap_full); in a fully periodic normalize the reversal of '
+                       'a left-handed cell (zeroSmall_flipC) and the final wrap (hist_normalize_full). Still a '
+                       'hypothesis: a wrap that lengthens a non-periodic vector (hist_wrap_inside: hclean) and the '
+                       'rebuilt LAMMPS cell of normalize (hist_normalize_full: hc2, no tilt factor below 1e-9 of the '
+                       'largest component). Where it is active the real code does change a cell vector by up to 1e-9 '
+                       'of the largest component; the oracle grants exactly that much and only where a component '
+                       'became exactly 0',
+    'storage_dtype': 'the model computes in one field; that positions handed over as integers are stored as floats '
+                     '(fix in /repo) and that float32 positions are written back with one float32 rounding of the new '
+                     'value only is checked by the oracle (input forms), not proved',
 }
 RULE = ('wrap: cells = products of dyadic shears/permutations/diagonal powers of two whose numpy inverse is '
         'exact (grid regime: relative coordinates multiples of 1/8 incl. exactly on faces, up to 2^10 cells '
@@ -204,7 +215,62 @@ def _props(n):
     return {'atype': np.array([1 + 2 * ((i * 7) % 2) for i in range(n)]),       # types 1 and 3: a gap
             'charge': np.array([0.25 * i - 1.0 for i in range(n)]),
             'spin': np.array([[i + 0.5, -i, 2.0 * i] for i in range(n)]),
-            'tag': np.array([100 + 3 * i for i in range(n)], dtype=int)}
+            'tag': np.array([100 + 3 * i for i in range(n)], dtype=int),
+            # a per-atom tensor: carried bit for bit (normalize rotates neither vectors nor tensors)
+            'stress': np.array([[[i + j - 0.5 * k for k in range(3)] for j in range(3)] for i in range(n)], dtype=float)}
+
+
+POSFORMS = ('f64', 'list', 'tuple', 'pyint', 'int64', 'int32', 'f32', 'fortran', 'strided', 'readonly')
+
+
+def _pos_arg(pos, form):
+    """the positions of a case in one of the forms a caller may hand them over in (same numbers in every form)."""
+    import numpy as np
+    if form in ('f64', None):
+        return pos.copy()
+    if form == 'list':
+        return pos.tolist()
+    if form == 'tuple':
+        return tuple(tuple(float(x) for x in r) for r in pos)
+    if form == 'pyint':                          # nested python ints, e.g. pos=[[0, 0, 0], [5, 5, 5]]
+        assert np.array_equal(pos, np.round(pos))
+        return [[int(x) for x in r] for r in pos]
+    if form in ('int64', 'int32'):
+        assert np.array_equal(pos, np.round(pos))
+        return pos.astype(form)
+    if form == 'f32':
+        assert np.array_equal(pos.astype(np.float32).astype(float), pos)
+        return pos.astype(np.float32)
+    if form == 'fortran':
+        return np.asfortranarray(pos.copy())
+    if form == 'strided':                         # a non-contiguous view into a larger buffer
+        big = np.full((2 * len(pos) + 1, 7), np.nan)
+        big[1::2, 1:6:2] = pos
+        return big[1::2, 1:6:2]
+    if form == 'readonly':
+        a = pos.copy()
+        a.setflags(write=False)
+        return a
+    if form == 'single':                          # one atom handed over as a bare (3,) vector
+        assert len(pos) == 1
+        return pos[0].copy()
+    raise cm.InfraError('unknown position form ' + str(form))
+
+
+def _pbc_arg(pbc, form):
+    import numpy as np
+    pbc = [bool(p) for p in pbc]
+    if form in ('tuple', None):
+        return tuple(pbc)
+    if form == 'list':
+        return list(pbc)
+    if form == 'int':
+        return tuple(int(p) for p in pbc)
+    if form == 'npbool':
+        return np.array(pbc, dtype=bool)
+    if form == 'npint':
+        return np.array(pbc, dtype=np.int64)
+    raise cm.InfraError('unknown pbc form ' + str(form))
 
 
 def _build(case):
@@ -212,10 +278,18 @@ def _build(case):
     import atomman as am
     pos = np.array(case['pos'], dtype=float).reshape(-1, 3)
     pr = _props(len(pos))
-    atoms = am.Atoms(atype=pr['atype'], pos=pos.copy(), charge=pr['charge'].copy(), spin=pr['spin'].copy(),
-                     tag=pr['tag'].copy())
-    box = am.Box(vects=np.array(case['vects'], dtype=float), origin=np.array(case['origin'], dtype=float))
-    return am.System(atoms=atoms, box=box, pbc=tuple(bool(p) for p in case['pbc']), symbols=('Al', None, 'Cu'))
+    atoms = am.Atoms(atype=pr['atype'], pos=_pos_arg(pos, case.get('posform')), charge=pr['charge'].copy(),
+                     spin=pr['spin'].copy(), tag=pr['tag'].copy(), stress=pr['stress'].copy())
+    V, o = np.array(case['vects'], dtype=float), np.array(case['origin'], dtype=float)
+    bf = case.get('boxform')
+    if bf == 'list':
+        box = am.Box(vects=V.tolist(), origin=o.tolist())
+    elif bf == 'avect':
+        box = am.Box(avect=tuple(V[0]), bvect=list(V[1]), cvect=V[2], origin=tuple(o))
+    else:
+        box = am.Box(vects=V, origin=o)
+    return am.System(atoms=atoms, box=box, pbc=_pbc_arg(case['pbc'], case.get('pbcform')), symbols=('Al', None, 'Cu'),
+                     masses=(26.98, None, 63.5))
 
 
 def _raw_vects(box):
@@ -225,7 +299,7 @@ def _raw_vects(box):
 def _snap(system):
     d = {k: system.atoms.view[k].copy() for k in system.atoms.view.keys()}
     return {'vects': system.box.vects.copy(), 'origin': system.box.origin.copy(), 'pbc': tuple(system.pbc),
-            'symbols': tuple(system.symbols), 'natoms': system.natoms, 'props': d}
+            'symbols': tuple(system.symbols), 'masses': tuple(system.masses), 'natoms': system.natoms, 'props': d}
 
 
 def _same_snap(a, b, skip=()):
@@ -238,6 +312,8 @@ def _same_snap(a, b, skip=()):
         bad.append('pbc')
     if a['symbols'] != b['symbols']:
         bad.append('symbols')
+    if a.get('masses') != b.get('masses'):
+        bad.append('masses')
     if a['natoms'] != b['natoms']:
         bad.append('natoms')
     if set(a['props']) != set(b['props']):
@@ -381,7 +457,9 @@ def _float_case(rng, pbc, n=None, far=True, faces=True):
             elif r < 0.7:
                 s.append(rng.uniform(0.05, 0.95))
             elif r < 0.85 and faces:
-                s.append(rng.choice([0, 1, -1, 2]) + rng.choice([0, 1e-13, -1e-13, 3e-16]))
+                # on a face / lattice plane, or a hair off it: from the rounding level up to 1e-4 of a cell
+                s.append(rng.choice([0, 1, -1, 2]) + rng.choice([0, 1e-13, -1e-13, 3e-16, 1e-10, -1e-10, 1e-8, -1e-8, 1e-7,
+                                                                 -1e-7, 1.5e-6, -1.5e-6, 1e-5, -1e-5, 1e-4, -1e-4]))
             elif far:
                 # far outside: unrestricted along periodic directions, moderate along padded ones
                 s.append(rng.choice([-1, 1]) * 10 ** rng.uniform(1, 6 if pbc[k] else 3))
@@ -394,6 +472,79 @@ def _float_case(rng, pbc, n=None, far=True, faces=True):
 
 
 PBCS = [(bool(i & 4), bool(i & 2), bool(i & 1)) for i in range(8)]
+
+# exact powers of two by which whole cases are rescaled: every float operation of wrap / normalize is homogeneous, so
+# the results scale exactly; beyond 2^+-335 or so the triple product of normalize's handedness test (a cube) leaves the
+# double range (underflow to 0: a small left-handed cell is not reversed; overflow: inf - inf = nan, likewise)
+SCALES = (-320, -250, -130, -40, 40, 130, 250, 320)
+
+
+def _rescale(case, k):
+    """the same case in units 2^k times smaller (cell, origin and positions multiplied by 2^k: exact)."""
+    f = 2.0 ** k
+    c = dict(case)
+    c['vects'] = [[x * f for x in r] for r in case['vects']]
+    c['origin'] = [x * f for x in case['origin']]
+    c['pos'] = [[x * f for x in p] for p in case['pos']]
+    c['scale2'] = k
+    return c
+
+
+def _form_case(rng, pbc, form):
+    """a case whose positions can be handed over in the given form: integer coordinates for the integer forms (in a
+    cell that is not integer: e.g. atoms at [0,0,0] and [5,5,5] in a cubic 3.5 cell), float32-exact for float32."""
+    import numpy as np
+    if rng.random() < 0.5:
+        V = np.diag([rng.choice([3.5, 2.25, 1.75, 4.5, 0.75]) for _ in range(3)])
+        if rng.random() < 0.5:
+            i, j = rng.sample(range(3), 2)
+            V[i, j] = rng.choice([0.5, -1.25, 1.5])
+        if rng.random() < 0.3:
+            V[rng.randint(0, 2)] *= -1
+        kind = 'normal'
+    else:
+        V, kind = _float_cell(rng)
+    n = 1 if form == 'single' else rng.randint(1, 6)
+    o = np.zeros(3) if rng.random() < 0.4 else np.array([cm.dyadic(rng, -8, 8, 2) for _ in range(3)])
+    if form in ('pyint', 'int64', 'int32'):
+        lim = [40 if p else 6 for p in pbc]
+        pos = np.array([[float(rng.randint(-lim[k], lim[k])) for k in range(3)] for _ in range(n)])
+    else:
+        S = np.array([[rng.choice([rng.uniform(-2, 3), rng.uniform(-30, 30) if pbc[k] else rng.uniform(-3, 4)])
+                       for k in range(3)] for _ in range(n)])
+        pos = S @ V + o
+        if form == 'f32':
+            pos = pos.astype(np.float32).astype(float)
+    c = _canon_case({'vects': V.tolist(), 'origin': o.tolist(), 'pbc': list(pbc), 'pos': pos.tolist(), 'regime': 'float',
+                     'kind': kind})
+    c['posform'] = form
+    c['pbcform'] = rng.choice(['tuple', 'list', 'int', 'npbool', 'npint'])
+    c['boxform'] = rng.choice(['array', 'list', 'avect'])
+    return c
+
+
+def _singular_case(rng, pbc):
+    """an exactly singular cell with small integer entries (numpy's LU meets an exact zero pivot)."""
+    # entries 0, +-1/2, +-1, +-2, +-4: every multiplier of the elimination is a power of two, so it is exact
+    a = [rng.choice([0.0, 1.0, -1.0, 2.0, -2.0, 4.0, 0.5, -0.5]) for _ in range(3)]
+    b = [rng.choice([0.0, 1.0, -1.0, 2.0, -2.0, 4.0, 0.5, -0.5]) for _ in range(3)]
+    if not any(a):
+        a[0] = 1.0
+    if not any(b):
+        b[1] = 2.0
+    # (two proportional / equal rows or a zero row stay exactly so through the elimination; a general coplanar triple
+    # need not be detected by numpy: rounding of a multiplier such as 1/2.5 hides the zero pivot)
+    kind = rng.choice(['parallel', 'zero', 'equal'])
+    if kind == 'parallel':
+        c = [2 * x for x in a]
+    elif kind == 'zero':
+        c = [0.0, 0.0, 0.0]
+    else:
+        c, b = list(a), b
+    V = [a, b, c]
+    rng.shuffle(V)
+    return {'vects': V, 'origin': [0.0, 0.5, -1.0], 'pbc': list(pbc), 'regime': 'grid', 'kind': 'singular',
+            'pos': [[float(rng.randint(-5, 5)) / 2 for _ in range(3)] for _ in range(rng.randint(1, 3))]}
 
 
 # ----------------------------------------------------------------------------------------
@@ -546,7 +697,10 @@ def _corr_norm(ctx, cases):
             continue
         if out.startswith('err:') or impl_err:
             ctx.stats.case('norm:error', _line('norm', case), nontrivial=False)
-            # partially periodic systems whose padding decision is within the bound of a face are exempt
+            # partially periodic systems whose padding decision is within the bound of a face are exempt; a singular
+            # cell must be refused by both sides (by which exception is not part of the property)
+            if case.get('kind') == 'singular' and impl_err and out.startswith('err:'):
+                continue
             if out != impl_err and not _norm_raise_exempt(case):
                 ctx.disagree('norm:error', f'normalize (pbc {case["pbc"]}): implementation {impl_err or "succeeds"}, '
                              f'model {out if out.startswith("err:") else "succeeds"}', replay)
@@ -644,13 +798,38 @@ def _inv_exact(V):
     return all(F(float(R[i][j])) == want[i][j] for i in range(3) for j in range(3))
 
 
+GETTERS = ('vects', 'origin', 'avect', 'bvect', 'cvect', 'a', 'b', 'c', 'alpha', 'beta', 'gamma', 'volume',
+           'reciprocal_vects', 'is_lammps_norm', 'lx', 'xy', 'xlo', 'zhi', 'pos', 'spos', 'atoms_df', 'inside', 'planes',
+           'symbols', 'masses', 'natypes', 'str')
+
+
 def _concretize(system, op):
-    """turn the recipe of a box operation into the concrete numbers handed to the implementation."""
+    """turn the recipe of an operation into the concrete numbers handed to the implementation."""
     import numpy as np
+    if op['op'] in ('peek', 'badscale'):
+        return dict(op, pbc=[bool(p) for p in system.pbc])
+    if op['op'] == 'move':
+        # new Cartesian positions: some atoms displaced by a combination of the current cell vectors
+        V, P = system.box.vects, system.atoms.view['pos'].astype(float)
+        if op.get('gridkeep'):
+            Vf = _fm(V)
+            new = []
+            for i, p in enumerate(P.tolist()):
+                sh = op['shift'][i % len(op['shift'])]
+                q = [F(float(a)) + b for a, b in zip(p, _vm([F(x) for x in sh], Vf))]
+                qf = [float(x) for x in q]
+                if not all(F(a) == b for a, b in zip(qf, q)):
+                    qf = [float(x) for x in p]           # would leave the grid: this atom stays
+                new.append(qf)
+        else:
+            new = [(np.array(p) + np.array(op['shift'][i % len(op['shift'])], dtype=float) @ V).tolist()
+                   for i, p in enumerate(P.tolist())]
+        return dict(op, P=new)
     if op['op'] not in ('boxset', 'setvects'):
         return op
     V, o = system.box.vects, system.box.origin
-    if op.get('same'):
+    how = op.get('how', 'vects')
+    if op.get('same') or how == 'origin-only':
         Vn = V
     elif 'left' in op:
         Vn = np.array(op['left'], dtype=float) @ V
@@ -667,10 +846,20 @@ def _concretize(system, op):
         on = o
     else:
         on = np.array(og, dtype=float)
-    how = op.get('how', 'vects')
     lower = Vn[0, 1] == 0 and Vn[0, 2] == 0 and Vn[1, 2] == 0 and Vn[0, 0] > 0 and Vn[1, 1] > 0 and Vn[2, 2] > 0
-    if how == 'lengths' and not lower:
+    if how in ('lengths', 'hilo') and not lower:
         how = 'avect'
+    if how == 'hilo':
+        # set_hi_los forms lx = xhi - xlo in floating point: hand the model the cell the implementation will see
+        Vn = Vn.copy()
+        hi = [on[k] + Vn[k, k] for k in range(3)]
+        for k in range(3):
+            Vn[k, k] = hi[k] - on[k]
+        if not (Vn[0, 0] > 0 and Vn[1, 1] > 0 and Vn[2, 2] > 0):
+            how = 'avect'
+        return dict(op, how=how, V=Vn.tolist(), o=on.tolist(), hi=[float(x) for x in hi])
+    if how == 'origin-only' and og == 'default':
+        on = o
     return dict(op, how=how, V=Vn.tolist(), o=on.tolist())
 
 
@@ -682,65 +871,229 @@ def _op_line(c):
         return 'setvects ' + cm.frs([x for r in c['V'] for x in r])
     if k == 'setorigin':
         return 'setorigin ' + cm.frs(c['origin'])
-    if k == 'setpbc':
+    if k in ('setpbc', 'peek', 'badscale'):            # reads and refused calls: the model state must not change
         return 'setpbc ' + ' '.join('1' if p else '0' for p in c['pbc'])
+    if k == 'move':
+        return 'setpos ' + cm.frs([x for p in c['P'] for x in p])
     return k
+
+
+class _Handed:
+    """arrays handed to the implementation: it must neither write to them nor keep them (they are overwritten with
+    NaN right after the call, so a kept reference shows up in the state of the object)."""
+
+    def __init__(self):
+        self.items = []
+
+    def arr(self, x):
+        import numpy as np
+        a = np.array(x, dtype=float)
+        self.items.append((a, a.copy()))
+        return a
+
+    def done(self):
+        import numpy as np
+        bad = [i for i, (a, c) in enumerate(self.items) if not np.array_equal(a, c)]
+        for a, _ in self.items:
+            a[...] = np.nan
+        return bad
+
+
+def _scribble(x):
+    """overwrite what a call returned: nothing of the object's state may be reachable through it."""
+    import numpy as np
+    if isinstance(x, np.ndarray) and x.flags.writeable and x.dtype.kind in 'fiub':
+        x[...] = (np.nan if x.dtype.kind == 'f' else -7 if x.dtype.kind in 'iu' else False)
+    elif isinstance(x, (tuple, list)):
+        for y in x:
+            _scribble(y)
+
+
+def _peek(system, names, scribble=True):
+    """read getters in the given order; everything they return is then overwritten."""
+    import numpy as np
+    b = system.box
+    out = []
+    for nm in names:
+        try:
+            if nm in ('vects', 'origin', 'avect', 'bvect', 'cvect', 'a', 'b', 'c', 'alpha', 'beta', 'gamma', 'volume',
+                      'reciprocal_vects', 'lx', 'xy', 'xlo', 'zhi', 'planes'):
+                v = getattr(b, nm)
+            elif nm == 'is_lammps_norm':
+                v = b.is_lammps_norm()
+            elif nm == 'pos':
+                v = system.atoms_prop('pos')
+            elif nm == 'spos':
+                v = system.atoms_prop('pos', scale=True)
+            elif nm == 'atoms_df':
+                v = system.atoms_df(scale=True).to_numpy()
+            elif nm == 'inside':
+                v = b.inside(system.atoms.pos)
+            elif nm == 'str':
+                v = str(system)
+            else:
+                v = getattr(system, nm)
+        except AssertionError:          # lx, xy, xlo, zhi of a cell that is not LAMMPS-normal: documented refusal
+            v = None
+        if scribble:
+            _scribble(v)
+        out.append(nm)
+    return out
 
 
 def _apply(system, c):
     """one operation on the live object; returns what the call hands back."""
     import numpy as np
+    import atomman as am
     k = c['op']
     if k == 'spos':
         return system.atoms_prop('pos', scale=True)
+    if k == 'peek':
+        return _peek(system, c['what'])
     if k == 'wrap':
-        return system.wrap(return_imageflags=True)
+        ret = c.get('ret', 'kw')
+        if ret == 'kw':
+            return system.wrap(return_imageflags=True)
+        if ret == 'pos':
+            return system.wrap(True)
+        if ret == 'false':
+            return system.wrap(return_imageflags=False)
+        return system.wrap()
     if k == 'norm':
-        return system.normalize(return_transform=True)
+        ret = c.get('ret', 'kw')
+        if ret == 'kw':
+            return system.normalize(return_transform=True)
+        if ret == 'style':
+            return system.normalize('lammps', True)
+        if ret == 'fn':
+            return am.lammps.normalize(system, True)
+        if ret == 'fnnone':
+            return am.lammps.normalize(system), None
+        return system.normalize(), None
     if k == 'rebuild':
         b = system.box
         return system.box_set(a=b.a, b=b.b, c=b.c, alpha=b.alpha, beta=b.beta, gamma=b.gamma, scale=True)
-    if k == 'setorigin':
-        system.box.origin = np.array(c['origin'], dtype=float)
+    H = _Handed()
+    try:
+        if k == 'setorigin':
+            system.box.origin = H.arr(c['origin'])
+            return None
+        if k == 'setpbc':
+            system.pbc = tuple(c['pbc'])
+            return None
+        if k == 'move':
+            how = c.get('how', 'attr')
+            if how == 'attr':
+                system.atoms.pos = H.arr(c['P'])
+            elif how == 'prop':
+                system.atoms_prop('pos', value=H.arr(c['P']))
+            elif how == 'aprop':
+                system.atoms.prop('pos', value=H.arr(c['P']))
+            elif how == 'view':
+                system.atoms.view['pos'] = H.arr(c['P'])
+            elif how == 'inplace':                  # in-place edit of the array the object holds
+                system.atoms.view['pos'][...] = np.array(c['P'], dtype=float)
+            else:                                   # atom by atom
+                for i, p in enumerate(c['P']):
+                    system.atoms_prop('pos', index=i, value=H.arr(p))
+            return None
+        if k == 'badscale':
+            # documented refusal: scale must be a bool
+            try:
+                system.box_set(vects=H.arr(system.box.vects * 1.5), scale=c['scale'])
+            except TypeError:
+                return 'TypeError'
+            return 'accepted'
+        V, o = H.arr(c['V']), H.arr(c['o'])
+        if k == 'setvects':
+            system.box.vects = V
+            return None
+        how, sc = c['how'], bool(c['scale'])
+        kw = {} if c.get('origin') == 'default' else {'origin': o}
+        if how == 'vects':
+            system.box_set(vects=V, scale=sc, **kw)
+        elif how == 'avect':
+            system.box_set(avect=V[0], bvect=V[1], cvect=V[2], scale=sc, **kw)
+        elif how == 'lengths':
+            system.box_set(lx=V[0, 0], ly=V[1, 1], lz=V[2, 2], xy=V[1, 0], xz=V[2, 0], yz=V[2, 1], scale=sc, **kw)
+        elif how == 'hilo':
+            hi = c['hi']
+            system.box_set(xlo=o[0], xhi=hi[0], ylo=o[1], yhi=hi[1], zlo=o[2], zhi=hi[2], xy=V[1, 0], xz=V[2, 0],
+                           yz=V[2, 1], scale=sc)
+        elif how == 'origin-only':
+            system.box_set(origin=o, scale=sc)
+        elif how == 'box.set':                      # only generated with scale False
+            system.box.set(vects=V, **kw)
+        else:
+            raise cm.InfraError('unknown box_set form ' + how)
         return None
-    if k == 'setpbc':
-        system.pbc = tuple(c['pbc'])
-        return None
-    V, o = np.array(c['V'], dtype=float), np.array(c['o'], dtype=float)
-    if k == 'setvects':
-        system.box.vects = V
-        return None
-    how, sc = c['how'], bool(c['scale'])
-    kw = {} if c.get('origin') == 'default' else {'origin': o}
-    if how == 'vects':
-        system.box_set(vects=V, scale=sc, **kw)
-    elif how == 'avect':
-        system.box_set(avect=V[0], bvect=V[1], cvect=V[2], scale=sc, **kw)
-    elif how == 'lengths':
-        system.box_set(lx=V[0, 0], ly=V[1, 1], lz=V[2, 2], xy=V[1, 0], xz=V[2, 0], yz=V[2, 1], scale=sc, **kw)
-    elif how == 'box.set':                      # only generated with scale False
-        system.box.set(vects=V, **kw)
-    else:
-        raise cm.InfraError('unknown box_set form ' + how)
-    return None
+    finally:
+        bad = H.done()
+        if bad:
+            c['_handed_modified'] = bad
+
+
+class _NormResult:
+    """bitwise copy of what normalize returned (the live result is overwritten right after the call)."""
+
+    def __init__(self, new, T):
+        import numpy as np
+        self.vects = new.box.vects.copy()
+        self.origin = new.box.origin.copy()
+        self.pos = new.atoms.view['pos'].copy()
+        self.snap = _snap(new)
+        self.lammps_norm = bool(new.box.is_lammps_norm())
+        self.T = None if T is None else np.array(T, copy=True)
+        self.is_system = type(new).__name__ == 'System'
+
+
+def _norm_arrays(new, T):
+    import numpy as np
+    arrs = [new.atoms.view[k] for k in new.atoms.view.keys()]
+    rv = _raw_vects(new.box)
+    if rv is not None:
+        arrs.append(rv)
+    ro = getattr(new.box, '_Box__origin', None)
+    if ro is not None:
+        arrs.append(ro)
+    if isinstance(T, np.ndarray):
+        arrs.append(T)
+    return arrs
 
 
 def _run_hist(hist):
-    """run the history on ONE System object; one record per operation (the run ends at the first exception)."""
+    """run the history on ONE System object; one record per operation (the run ends at the first exception).
+    Everything a call returns is copied and then overwritten, everything handed in is overwritten after the call."""
     import numpy as np
     system = _build(hist['case'])
     recs = []
+    live = []                  # arrays returned by earlier calls (kept alive): later results must not share memory
     for op in hist['ops']:
         c = _concretize(system, op)
         rec = {'c': c, 'before': _state(system), 'snap0': _snap(system)}
         try:
-            rec['obs'] = _apply(system, c)
+            obs = _apply(system, c)
             if c['op'] == 'norm':
-                new = rec['obs'][0]
-                rec['shared'] = [kk for kk in new.atoms.view.keys()
-                                 if np.shares_memory(new.atoms.view[kk], system.atoms.view[kk])]
-                if _raw_vects(new.box) is not None and np.shares_memory(_raw_vects(new.box), _raw_vects(system.box)):
-                    rec['shared'].append('box')
+                new, T = obs
+                mine = _norm_arrays(new, T)
+                own = [system.atoms.view[kk] for kk in system.atoms.view.keys()] + [_raw_vects(system.box)]
+                rec['shared'] = sorted({'input' for x in mine for y in own if y is not None and np.shares_memory(x, y)}
+                                       | {'an earlier result' for x in mine for y in live if np.shares_memory(x, y)})
+                if isinstance(T, np.ndarray) and any(np.shares_memory(T, x) for x in mine[:-1]):
+                    rec['shared'].append('transform/system')
+                rec['obs'] = _NormResult(new, T)
+                live.extend(mine)
+                for x in mine:
+                    _scribble(x)
+            elif isinstance(obs, np.ndarray):
+                own = [system.atoms.view[kk] for kk in system.atoms.view.keys()] + [_raw_vects(system.box)]
+                if any(y is not None and np.shares_memory(obs, y) for y in own) or any(np.shares_memory(obs, y) for y in live):
+                    rec['shared'] = ['returned array']
+                rec['obs'] = obs.copy()
+                live.append(obs)
+                _scribble(obs)
+            else:
+                rec['obs'] = obs
         except cm.InfraError:
             raise
         except Exception as e:  # noqa
@@ -757,9 +1110,9 @@ def _run_hist(hist):
 def _keeps_exact(c, before, after_vects):
     """does this operation keep a grid state on the grid (every float operation of later steps exact)?"""
     k = c['op']
-    if k in ('spos', 'norm', 'setpbc'):
+    if k in ('spos', 'norm', 'setpbc', 'peek', 'badscale'):
         return True
-    if k == 'setorigin':
+    if k in ('setorigin', 'move'):
         return bool(c.get('gridkeep'))
     if k == 'wrap':
         return all(before['pbc'])
@@ -772,7 +1125,7 @@ def _keeps_exact(c, before, after_vects):
 
 
 def _hist_name(hist):
-    return '>'.join(o['op'] + ('*' if o.get('scale') else '') for o in hist['ops'])
+    return '>'.join(o['op'] + ('*' if o.get('scale') is True else '') for o in hist['ops'])
 
 
 def _corr_hist(ctx, hists):
@@ -845,8 +1198,16 @@ def _check_step(ctx, h, k, rec, sec):
     b, a = rec['before'], rec['after']
     pbc = b['pbc']
     # --- heap facts first: what an operation must not touch -----------------------------------------
-    skip = ('vects', 'origin', 'pos') if name in ('wrap', 'boxset', 'rebuild', 'setvects', 'setorigin') else ()
+    skip = ('vects', 'origin', 'pos') if name in ('wrap', 'boxset', 'rebuild', 'setvects', 'setorigin', 'move') else ()
     s0, s1 = rec['snap0'], rec['snap1']
+    if c.get('_handed_modified'):
+        ctx.violate('aliasing:handed-in-array-modified', f'{label}: the call wrote to the array(s) it was handed '
+                    f'(argument {c["_handed_modified"]})', replay)
+        return False
+    if rec.get('shared') and name != 'norm':
+        ctx.violate('aliasing:returned-array-shared', f'{label}: the returned array shares memory with the object or '
+                    'with an array returned earlier', replay)
+        return False
     if name == 'setpbc':
         s0 = dict(s0, pbc=tuple(c['pbc']))
     bad = _same_snap(s0, s1, skip=skip)
@@ -898,7 +1259,13 @@ def _check_step(ctx, h, k, rec, sec):
         mpos = _chunks3([F(t) for t in parts[1]])
         mflags = _chunks3([int(t) for t in parts[2]])
         spos = _chunks3([F(t) for t in parts[3]])
-        fl = np.asarray(rec['obs'])
+        wantflags = c.get('ret', 'kw') in ('kw', 'pos')
+        if not wantflags:
+            if rec['obs'] is not None:
+                return dis('flags-returned', f'wrap() without return_imageflags returned {type(rec["obs"]).__name__}')
+            fl = np.array(mflags, dtype=int).reshape(n, 3)        # (not observable: positions are compared below)
+        else:
+            fl = np.asarray(rec['obs'])
         if fl.shape != (n, 3) or not np.issubdtype(fl.dtype, np.integer):
             return dis('flags-shape', f'image flags have shape {fl.shape} dtype {fl.dtype}')
         smaxs = [max(abs(float(x)) for x in s) for s in spos]
@@ -958,10 +1325,19 @@ def _check_step(ctx, h, k, rec, sec):
             soft = all(x == y or (abs(abs(float((x if x != 0 else y) / m)) - 1e-9) <= 1e-15) for x, y in zip(ibox, mbox))
             if not soft:
                 return dis('box', f'box after the operation is {[float(x) for x in ibox]}, model {[float(x) for x in mbox]}')
+        if name == 'badscale' and rec['obs'] != 'TypeError':
+            ctx.violate('refusal:box_set-scale-type', f'{label}: box_set(scale={c["scale"]!r}) was {rec["obs"]} (the '
+                        'documented TypeError for a scale that is not a bool is gone)', replay)
+            return False
+        if name == 'move':
+            if a['pos'] != c['P']:
+                return dis('positions', f'positions after the assignment are {a["pos"]}, assigned {c["P"]}')
+            return True
         scaled = name == 'rebuild' or (name == 'boxset' and c['scale'])
         if not scaled:
             if a['pos'] != b['pos']:
-                return dis('positions', 'absolute positions changed although scale is False')
+                return dis('positions', 'absolute positions changed although scale is False' if name == 'boxset'
+                           else f'absolute positions changed by {name}')
             return True
         nVn = _normV(a['vects'])
         onew = max(abs(x) for x in a['origin'])
@@ -990,30 +1366,33 @@ def _check_norm_step(ctx, h, k, rec, parts, label, replay, kap):
         ctx.disagree('hist:norm-' + key, f'{label}: {what}', replay)
         return False
 
-    new, T = rec['obs']
+    res = rec['obs']
+    T = res.T
     mbox = [F(t) for t in parts[0]]
     mpos = _chunks3([F(t) for t in parts[1]])
     mT = [F(t) for t in parts[3]]
     spos = _chunks3([F(t) for t in parts[4]])
     full = all(pbc)
+    if not res.is_system or (T is None) != (rec['c'].get('ret', 'kw') in ('none', 'fnnone')):
+        return dis('return', f'normalize ({rec["c"].get("ret", "kw")}) returned the wrong kind of result')
     es = [_es(kap, max(abs(float(x)) for x in s), CN * kap) for s in spos]
     exempt = [{j for j in range(3) if pbc[j] and abs(float(s[j] - _nearint(s[j]))) <= es[i]} for i, s in enumerate(spos)]
     ctx.extra['exempt_flags'] = ctx.extra.get('exempt_flags', 0) + sum(len(e) for e in exempt)
     if not full and _norm_raise_exempt(b, spos):
         return True
-    ibox = [F(float(x)) for x in new.box.vects.ravel()] + [F(float(x)) for x in new.box.origin]
+    ibox = [F(float(x)) for x in res.vects.ravel()] + [F(float(x)) for x in res.origin]
     sc = max(abs(float(x)) for x in mbox[:9])
     if not full:
         sc *= 1 + max(max(abs(float(x)) for x in s) for s in spos)
     if any(_over('corr:norm-box', abs(x - y), CN * U * kap * kap * sc) for x, y in zip(ibox, mbox)):
         return dis('box', f'normalized box {[float(x) for x in ibox]}, model {[float(x) for x in mbox]}')
     k2 = _kappa2(_fm(b['vects']))
-    if any(_over('corr:norm-transform', abs(F(float(x)) - y), CN * U * k2 * k2) for x, y in zip(T.ravel(), mT)):
+    if T is not None and any(_over('corr:norm-transform', abs(F(float(x)) - y), CN * U * k2 * k2) for x, y in zip(T.ravel(), mT)):
         return dis('transform', f'transform {T.tolist()}, model {[float(x) for x in mT]}')
     N = [mbox[0:3], mbox[3:6], mbox[6:9]]
     Ni = _inv(N)
     nVn = _normV([[float(x) for x in r] for r in N])
-    newpos = new.atoms.view['pos'].tolist()
+    newpos = res.pos.tolist()
     for i in range(n):
         d = [F(float(x)) - y for x, y in zip(newpos[i], mpos[i])]
         if exempt[i]:
@@ -1025,11 +1404,11 @@ def _check_norm_step(ctx, h, k, rec, parts, label, replay, kap):
         smax = max(abs(float(x)) for x in spos[i])
         if _over('corr:norm-pos', max(abs(float(x)) for x in d), _ep(kap, smax, nVn, 0.0, CN * kap)):
             return dis('positions', f'atom {i} at {newpos[i]}, model {[float(x) for x in mpos[i]]}')
-    bad = _same_snap(rec['snap0'], _snap(new), skip=('vects', 'origin', 'pos'))
+    bad = _same_snap(rec['snap0'], res.snap, skip=('vects', 'origin', 'pos'))
     if bad:
         return dis('carried', f'normalize did not carry over {bad}')
     if rec.get('shared'):
-        ctx.violate('normalize:shares-memory', f'{label}: normalized system shares memory with its input: {rec["shared"]}',
+        ctx.violate('normalize:shares-memory', f'{label}: what normalize returned shares memory with {rec["shared"]}',
                     replay)
         return False
     return True
@@ -1083,7 +1462,11 @@ def _strain(rng, lower=False):
 def _box_op(rng, regime, kind, far=False):
     import numpy as np
     scale = rng.random() < 0.55
-    how = rng.choice(['vects', 'vects', 'avect', 'lengths'] + ([] if scale else ['box.set']))
+    how = rng.choice(['vects', 'vects', 'avect', 'lengths', 'hilo'] + ([] if scale else ['box.set']))
+    if rng.random() < 0.1:
+        # only the origin is given: box_set(origin=o, scale=...) (with scale=True the atoms follow the origin)
+        o = [cm.dyadic(rng, -8, 8, 2) for _ in range(3)] if regime == 'grid' else [rng.uniform(-10, 10) for _ in range(3)]
+        return {'op': 'boxset', 'same': True, 'scale': scale, 'how': 'origin-only', 'origin': o}
     if regime == 'grid':
         r = rng.random()
         og = rng.choice(['keep', 'keep', 'keep', 'default'])
@@ -1138,20 +1521,48 @@ def _gen_hist(rng, regime):
     srel = np.abs(np.linalg.solve(np.array(case['vects']).T, (np.array(case['pos']) - np.array(case['origin'])).T).T)
     far = bool(srel.max() > 100.0)
     free = [not far] * 3       # (a strain under fixed Cartesian positions mixes the axes along which an atom is far)
-    # opening: the cache is warmed (or not) before the cell is touched
-    first = rng.choice(['spos', 'wrap', 'norm', None, 'spos', 'wrap'])
+    def wrap_op():
+        return {'op': 'wrap', 'ret': rng.choice(['kw', 'kw', 'pos', 'none', 'false'])}
+
+    def norm_op():
+        return {'op': 'norm', 'ret': rng.choice(['kw', 'kw', 'style', 'fn', 'none', 'fnnone'])}
+
+    def named(k):
+        return wrap_op() if k == 'wrap' else norm_op() if k == 'norm' else {'op': k}
+
+    def peek_op():
+        return {'op': 'peek', 'what': rng.sample(GETTERS, rng.randint(1, 6))}
+
+    def move_op():
+        n = rng.randint(1, 3)
+        if regime == 'grid':
+            sh = [[rng.choice([0, 0, 1, -1, 5, -40, 0.125, -0.5, 2.75]) for _ in range(3)] for _ in range(n)]
+        else:
+            sh = [[rng.choice([0.0, rng.uniform(-1, 1), rng.uniform(-30, 30), float(rng.randint(-3, 3))]) if all(pbc) or not far
+                   else rng.uniform(-0.4, 0.4) for _ in range(3)] for _ in range(n)]
+        return {'op': 'move', 'shift': sh, 'gridkeep': regime == 'grid',
+                'how': rng.choice(['attr', 'prop', 'aprop', 'view', 'inplace', 'index'])}
+
+    # opening: the cache is warmed (or not) before the cell is touched; getters read in some order
+    first = rng.choice(['spos', 'wrap', 'norm', None, 'spos', 'wrap', 'peek'])
     if first:
-        ops.append({'op': first})
+        ops.append(peek_op() if first == 'peek' else named(first))
     for _ in range(rng.randint(1, 4)):
         r = rng.random()
-        if r < 0.45:
+        if r < 0.40:
             ops.append(_box_op(rng, regime, kind, far))
-        elif r < 0.55:
+        elif r < 0.47:
             ops.append({'op': 'spos'})
-        elif r < 0.75:
-            ops.append({'op': 'wrap'})
+        elif r < 0.53:
+            ops.append(peek_op())
+        elif r < 0.60:
+            ops.append(move_op())
+        elif r < 0.62:
+            ops.append({'op': 'badscale', 'scale': rng.choice([1, 0, 'True', None, 1.0])})
+        elif r < 0.77:
+            ops.append(wrap_op())
         elif r < 0.87:
-            ops.append({'op': 'norm'})
+            ops.append(norm_op())
         elif r < 0.91 and regime != 'grid':
             ops.append({'op': 'rebuild'})
         elif r < 0.95:
@@ -1165,9 +1576,9 @@ def _gen_hist(rng, regime):
     if not any(o['op'] in ('boxset', 'setvects') for o in ops):
         ops.insert(rng.randint(1 if first else 0, len(ops)), _box_op(rng, regime, kind, far))
     # closing: look at the object again
-    ops.append({'op': rng.choice(['wrap', 'wrap', 'norm', 'spos'])})
+    ops.append(named(rng.choice(['wrap', 'wrap', 'norm', 'spos'])))
     if rng.random() < 0.5:
-        ops.append({'op': rng.choice(['wrap', 'norm'])})
+        ops.append(named(rng.choice(['wrap', 'norm'])))
     return {'case': case, 'ops': ops}
 
 
@@ -1180,6 +1591,18 @@ def correspond(ctx):
             wrap_cases.append(_grid_case(rng, pbc))
             if it % 2 == 0:
                 wrap_cases.append(_float_case(rng, pbc))
+    # magnitudes (exact powers of two), input forms with the same numbers (not float32: its storage rounding is the
+    # oracle's business), exactly singular cells (both sides must refuse)
+    extra = []
+    for it in range(ctx.n(3, 40)):
+        for k in SCALES:
+            pbc = rng.choice(PBCS)
+            extra.append(_rescale(_grid_case(rng, pbc) if (it + k) % 2 == 0 else _float_case(rng, pbc), k))
+        for form in POSFORMS:
+            if form not in ('f32', 'readonly'):
+                extra.append(_form_case(rng, rng.choice(PBCS), form))
+        extra.append(_singular_case(rng, rng.choice(PBCS)))
+    wrap_cases += extra
     _corr_wrap(ctx, wrap_cases)
     norm_cases = []
     for it in range(ctx.n(120, 2000)):
@@ -1192,13 +1615,25 @@ def correspond(ctx):
             pbc = rng.choice(PBCS[:7])
             c = _float_case(rng, pbc, far=False, faces=False)
             norm_cases.append(_inside_nonperiodic(rng, c) if rng.random() < 0.7 else c)
+    extra_n = []
+    for it in range(ctx.n(3, 40)):
+        for k in SCALES:
+            extra_n.append(_rescale(_grid_case(rng, (True, True, True)) if (it + k) % 3 == 0
+                                    else _float_case(rng, (True, True, True)), k))
+        for form in POSFORMS:
+            if form != 'f32':
+                extra_n.append(_form_case(rng, (True, True, True), form))
+        extra_n.append(_singular_case(rng, (True, True, True)))
+    norm_cases += extra_n
     _corr_norm(ctx, norm_cases)
     # histories on one object: the hidden state (cached reciprocal vectors) must never show
     hists = [_gen_hist(rng, 'grid' if it % 3 == 0 else 'float') for it in range(ctx.n(150, 2500))]
     # the single calls above once more as one- and two-step histories: compared with the object-level model (which
     # includes the clean-up of the setter) at the derived rounding bound instead of the 1e-9 of the single-call path
-    hists += [{'case': dict(c), 'ops': [{'op': 'wrap'}, {'op': 'wrap'}]} for c in wrap_cases]
-    hists += [{'case': dict(c), 'ops': [{'op': 'norm'}]} for c in norm_cases]
+    hists += [{'case': dict(c), 'ops': [{'op': 'wrap', 'ret': RETS_W[i % 4]}, {'op': 'wrap'}]}
+              for i, c in enumerate(wrap_cases) if c.get('kind') != 'singular']
+    hists += [{'case': dict(c), 'ops': [{'op': 'norm', 'ret': RETS_N[i % 5]}]}
+              for i, c in enumerate(norm_cases) if c.get('kind') != 'singular']
     _corr_hist(ctx, hists)
 
 
@@ -1218,6 +1653,9 @@ def _inside_nonperiodic(rng, case):
 # ----------------------------------------------------------------------------------------
 # search: the clauses of the property on the real code, exact rational oracle
 # ----------------------------------------------------------------------------------------
+SEPS32 = 2.0 ** -23            # one float32 rounding of a stored coordinate (relative)
+
+
 def _wrap_clauses(ctx, case, report=True):
     """returns the first violated clause (key, text) or None."""
     def fail(key, what):
@@ -1225,17 +1663,48 @@ def _wrap_clauses(ctx, case, report=True):
             ctx.violate(key, what, {'op': 'wrap', 'case': case})
         return key, what
 
-    return _wrap_clauses_sys(_build(case), case['regime'] == 'grid', fail)
+    f32 = case.get('posform') == 'f32'
+    try:
+        system = _build(case)
+    except cm.InfraError:
+        raise
+    except Exception as e:  # noqa
+        return fail('wrap:construction-raises', f'building the system ({case.get("posform")}, {case.get("pbcform")}, '
+                    f'{case.get("boxform")}) raised {type(e).__name__}: {e}')
+    return _wrap_clauses_sys(system, case['regime'] == 'grid' and not f32, fail, ret=case.get('ret', 'kw'),
+                             seps=SEPS32 if f32 else 0.0)
 
 
-def _wrap_clauses_sys(system, grid, fail):
+def _call_wrap(system, ret):
+    if ret == 'kw':
+        return system.wrap(return_imageflags=True)
+    if ret == 'pos':
+        return system.wrap(True)
+    if ret == 'false':
+        return system.wrap(return_imageflags=False)
+    return system.wrap()
+
+
+def _wrap_clauses_sys(system, grid, fail, ret='kw', seps=0.0):
     """the wrap clauses of the property on a live System (wraps it twice); exact rational oracle.
-    `grid`: every float operation is exact on this state, so the clauses are decided with zero tolerance."""
+    `grid`: every float operation is exact on this state, so the clauses are decided with zero tolerance.
+    `ret`: how the image flags are asked for (not at all: they are then derived from the displacement).
+    `seps`: relative rounding of the array the positions are stored in (float32 positions)."""
     import numpy as np
     before = _snap(system)
     V, o = _fm(before['vects']), _fv(before['origin'])
     if _det(V) == 0:
-        return fail('wrap:box-singular', f'the cell {before["vects"].tolist()} is singular before wrap is called')
+        # a singular cell has no relative coordinates: the only correct outcome is a refusal that changes nothing
+        try:
+            _call_wrap(system, ret)
+        except Exception:  # noqa
+            bad = _same_snap(before, _snap(system))
+            if bad:
+                return fail('refusal:singular-cell-state', f'wrap refused the singular cell {before["vects"].tolist()} '
+                            f'but changed {bad} first')
+            return None
+        return fail('refusal:singular-cell-accepted', f'wrap accepted the singular cell {before["vects"].tolist()} and '
+                    f'left the atoms at {system.atoms.view["pos"].tolist()}')
     Vi = _inv(V)
     pbc = [bool(p) for p in before['pbc']]
     old = [_fv(p) for p in before['props']['pos']]
@@ -1245,12 +1714,24 @@ def _wrap_clauses_sys(system, grid, fail):
     kap = _kappa(V)
 
     try:
-        flags = np.asarray(system.wrap(return_imageflags=True))
+        got = _call_wrap(system, ret)
     except Exception as e:  # noqa
         return fail('wrap:raises', f'wrap raised {type(e).__name__}: {e}')
-    if flags.shape != (len(old), 3):
-        return fail('wrap:flags-shape', f'image flags have shape {flags.shape}')
     new = [_fv(p) for p in system.atoms.view['pos']]
+    if ret in ('kw', 'pos'):
+        if not isinstance(got, np.ndarray) or got.shape != (len(old), 3) or got.dtype.kind not in 'iu':
+            return fail('wrap:flags-shape', f'image flags are {type(got).__name__} of shape {getattr(got, "shape", None)} '
+                        f'dtype {getattr(got, "dtype", None)}')
+        own = [system.atoms.view[k] for k in system.atoms.view.keys()] + [_raw_vects(system.box)]
+        if any(y is not None and np.shares_memory(got, y) for y in own):
+            return fail('aliasing:returned-array-shared', 'the returned image flags share memory with the system')
+        flags = got.copy()
+    else:
+        if got is not None:
+            return fail('wrap:flags-returned', f'wrap() without return_imageflags returned {type(got).__name__}')
+        # flags not asked for: the whole number of old cell vectors nearest to the displacement
+        flags = np.array([[_nearint(x) if pbc[k] else 0 for k, x in enumerate(_vm([a - b for a, b in zip(o_, n_)], Vi))]
+                          for o_, n_ in zip(old, new)], dtype=object).reshape(len(old), 3)
     NV, no = _fm(system.box.vects), _fv(system.box.origin)
     if _det(NV) == 0:
         return fail('wrap:box-singular', 'wrap produced a singular cell')
@@ -1269,8 +1750,9 @@ def _wrap_clauses_sys(system, grid, fail):
     clean = CLEAN * maxN * rinvN * 3 if cleaned else 0.0
     for i in range(len(old)):
         smax = max(abs(float(x)) for x in sold[i])
-        tol = _ep(kap, smax, nV, omax)
-        rtol_ = _er(kap, smax, omax, rinv)
+        stor = seps * max(abs(float(x)) for x in new[i])          # one rounding of the stored (float32) coordinate
+        tol = _ep(kap, smax, nV, omax) + stor
+        rtol_ = _er(kap, smax, omax, rinv) + stor * rinv
         # (1) whole cell vectors along periodic directions only; flags reconstruct the original positions
         for k in range(3):
             if not pbc[k] and int(flags[i, k]) != 0:
@@ -1292,7 +1774,7 @@ def _wrap_clauses_sys(system, grid, fail):
                             f'vectors: not a whole number along axis {k} (off by {off:.3g}, rounding bound {rtol_:.3g})')
         # (2) every atom inside the new cell (faces included)
         sn = _rel(new[i], NV, NVi, no)
-        stol = 0 if grid and all(pbc) else _er(kap, smax, omax, rinv) + _er(kapN, 1.0, omaxN, rinvN) + clean
+        stol = 0 if grid and all(pbc) else _er(kap, smax, omax, rinv) + _er(kapN, 1.0, omaxN, rinvN) + clean + stor * rinvN
         for k in range(3):
             if float(sn[k]) < -stol or float(sn[k]) > 1 + stol:
                 return fail('wrap:outside', f'atom {i} is outside the cell after wrap (pbc {pbc}): relative coordinate '
@@ -1320,14 +1802,21 @@ def _wrap_clauses_sys(system, grid, fail):
     bad = _same_snap(before, _snap(system), skip=('vects', 'origin', 'pos'))
     if bad:
         return fail('wrap:carried', f'wrap changed {bad}')
-    # (4) wrapping again changes nothing
+    # (4) wrapping again changes nothing; the flags handed out by the first call are the caller's
     snap1 = _snap(system)
+    if isinstance(got, np.ndarray):
+        _scribble(got)
     try:
         flags2 = np.asarray(system.wrap(return_imageflags=True))
     except Exception as e:  # noqa
         return fail('wrap:raises', f'second wrap raised {type(e).__name__}: {e}')
+    if isinstance(got, np.ndarray) and (np.shares_memory(got, flags2) or not np.all(got == -7)):
+        return fail('aliasing:returned-array-shared', 'the image flags returned by the first wrap were overwritten by the '
+                    'second wrap of the same system (both calls hand out the same buffer)')
     snap2 = _snap(system)
-    band = _er(kap, sall, omax, rinv) + _er(kapN, 1.0, omaxN, rinvN) + (CLEAN * maxN * rinvN * 3 if cleaned else 0.0)
+    storN = seps * (nVN + omaxN)
+    band = (_er(kap, sall, omax, rinv) + _er(kapN, 1.0, omaxN, rinvN) + (CLEAN * maxN * rinvN * 3 if cleaned else 0.0)
+            + storN * rinvN)
     near = any(abs(float(x) - round(float(x))) <= band for p in new for x in _rel(p, NV, NVi, no))
     if not near or (grid and all(pbc)):
         if flags2.any():
@@ -1335,7 +1824,7 @@ def _wrap_clauses_sys(system, grid, fail):
         if not (np.array_equal(snap1['vects'], snap2['vects']) and np.array_equal(snap1['origin'], snap2['origin'])):
             return fail('wrap:not-idempotent', f'second wrap changes the box from {snap1["vects"].tolist()} / '
                         f'{snap1["origin"].tolist()} to {snap2["vects"].tolist()} / {snap2["origin"].tolist()}')
-        if not np.allclose(snap1['props']['pos'], snap2['props']['pos'], rtol=0, atol=_ep(kapN, 1.0, nVN, omaxN)):
+        if not np.allclose(snap1['props']['pos'], snap2['props']['pos'], rtol=0, atol=_ep(kapN, 1.0, nVN, omaxN) + storN):
             return fail('wrap:not-idempotent', 'second wrap moves atoms that were already inside the cell')
     return None
 
@@ -1364,7 +1853,8 @@ def _min_image_d2(d, V, Vi_np, V_np):
         if q[t] >= ((dn + n0 @ V_np) ** 2).sum() * (1 - 1e-12):
             break
         n0 = n0 + _NEIGH[t]
-    dc = float(np.linalg.norm(dn + n0 @ V_np)) * (1 + 1e-9) + 1e-12
+    vs = float(np.abs(V_np).max())             # every slack below is relative to the cell size (scale sweeps)
+    dc = float(np.linalg.norm(dn + n0 @ V_np)) * (1 + 1e-9) + 1e-12 * vs
     lo, hi = [], []
     for k in range(3):
         rad = dc * float(np.linalg.norm(Vi_np[:, k])) * (1 + 1e-9) + 1e-9
@@ -1382,7 +1872,7 @@ def _min_image_d2(d, V, Vi_np, V_np):
     d2 = (cand * cand).sum(axis=1)
     m = float(d2.min())
     # ranking error of the float evaluation: relative 1e-9 of the larger of |d| and the cell size
-    slack = 1e-9 * (m + float(np.abs(dn).max()) * float(np.abs(V_np).max()) * 1e-3) + 1e-12
+    slack = 1e-9 * (m + float(np.abs(dn).max()) * vs * 1e-3) + 1e-12 * vs * vs
     best = np.argsort(d2)[:16]
     out = None
     for t in best:
@@ -1400,26 +1890,75 @@ def _norm_clauses(ctx, case, report=True):
             ctx.violate(key, what, {'op': 'norm', 'case': case})
         return key, what
 
-    return _norm_clauses_sys(_build(case), fail)
+    f32 = case.get('posform') == 'f32'
+    try:
+        system = _build(case)
+    except cm.InfraError:
+        raise
+    except Exception as e:  # noqa
+        return fail('normalize:construction-raises', f'building the system ({case.get("posform")}, {case.get("pbcform")}, '
+                    f'{case.get("boxform")}) raised {type(e).__name__}: {e}')
+    return _norm_clauses_sys(system, fail, ret=case.get('ret', 'kw'), seps=SEPS32 if f32 else 0.0)
 
 
-def _norm_clauses_sys(system, fail):
+def _call_norm(system, ret):
+    import atomman as am
+    if ret == 'kw':
+        return system.normalize(return_transform=True)
+    if ret == 'style':
+        return system.normalize('lammps', True)
+    if ret == 'fn':
+        return am.lammps.normalize(system, True)
+    if ret == 'fnnone':
+        return am.lammps.normalize(system), None
+    return system.normalize(), None
+
+
+def _norm_clauses_sys(system, fail, ret='kw', seps=0.0):
     """the normalize clauses of the property on a live, fully periodic System; exact rational oracle."""
     import numpy as np
     import atomman as am
     before = _snap(system)
+    V, o = _fm(before['vects']), _fv(before['origin'])
     try:
-        new, T = system.normalize(return_transform=True)
+        new, T = _call_norm(system, ret)
     except Exception as e:  # noqa
+        if _det(V) == 0:                         # a singular cell must be refused, and the input left alone
+            bad = _same_snap(before, _snap(system))
+            return fail('normalize:input-modified', f'normalize refused a singular cell but changed {bad}') if bad else None
         return fail('normalize:raises', f'normalize raised {type(e).__name__}: {e} on a fully periodic system')
     bad = _same_snap(before, _snap(system))
     if bad:
         return fail('normalize:input-modified', f'normalize changed its input: {bad}')
-    if any(np.shares_memory(new.atoms.view[k], system.atoms.view[k]) for k in new.atoms.view.keys()):
-        return fail('normalize:shares-memory', 'normalized system shares atom data with its input')
-    V, o = _fm(before['vects']), _fv(before['origin'])
+    if type(new).__name__ != 'System' or (T is not None and not (isinstance(T, np.ndarray) and T.shape == (3, 3))):
+        return fail('normalize:return', f'normalize ({ret}) returned {type(new).__name__} / {type(T).__name__}')
+    mine = _norm_arrays(new, T)
+    own = [system.atoms.view[k] for k in system.atoms.view.keys()] + [_raw_vects(system.box),
+                                                                      getattr(system.box, '_Box__origin', None)]
+    if any(y is not None and np.shares_memory(x, y) for x in mine for y in own):
+        return fail('normalize:shares-memory', 'what normalize returned shares memory with its input')
+    if isinstance(T, np.ndarray) and any(np.shares_memory(T, x) for x in mine[:-1]):
+        return fail('normalize:shares-memory', 'the returned transformation shares memory with the returned system')
     if _det(V) == 0:
-        return fail('normalize:box-singular', f'normalize accepted the singular cell {before["vects"].tolist()}')
+        return fail('refusal:singular-cell-accepted', f'normalize accepted the singular cell {before["vects"].tolist()}')
+    # freshness: overwrite a first result, ask again: same answer, not the same memory, whatever was asked for
+    res1 = _NormResult(new, T)
+    for x in mine:
+        _scribble(x)
+    try:
+        new, T2 = system.normalize(return_transform=True)
+    except Exception as e:  # noqa
+        return fail('normalize:raises', f'a second normalize of the same system raised {type(e).__name__}: {e}')
+    if any(np.shares_memory(x, y) for x in _norm_arrays(new, T2) for y in mine):
+        return fail('normalize:shares-memory', 'two results of normalize share memory')
+    res2 = _NormResult(new, T2)
+    if not (np.array_equal(res1.vects, res2.vects) and np.array_equal(res1.origin, res2.origin)
+            and np.array_equal(res1.pos, res2.pos) and not _same_snap(res1.snap, res2.snap)
+            and (res1.T is None or np.array_equal(res1.T, res2.T))):
+        return fail('normalize:not-reproducible', f'normalize ({ret}) followed by normalize(return_transform=True) of the '
+                    f'same unchanged system give different results (box {res1.vects.tolist()} / {res2.vects.tolist()}, '
+                    f'first positions {res1.pos[:2].tolist()} / {res2.pos[:2].tolist()})')
+    T = T2
     left = _det(V) < 0
     if left:                                   # "a left-handed cell first having its third vector reversed"
         o = [a + b for a, b in zip(o, V[2])]
@@ -1467,7 +2006,8 @@ def _norm_clauses_sys(system, fail):
     for i in range(len(old)):
         s0 = rel0[i]
         s1 = _rel(newp[i], N, Ni, no)
-        stol = 4 * _er(kap, max(abs(float(x)) for x in s0), omax, rinv)
+        stol = 4 * _er(kap, max(abs(float(x)) for x in s0), omax, rinv) + seps * 3 * sc * _colsum(Ni) \
+            + seps * max(abs(float(x)) for x in old[i]) * rinv
         for k in range(3):
             if _over('normalize:outside', max(-s1[k], s1[k] - 1, 0), stol):
                 return fail('normalize:outside', f'atom {i} is outside the normalized cell: relative coordinate {float(s1[k])!r} '
@@ -1490,7 +2030,7 @@ def _norm_clauses_sys(system, fail):
                 continue
             s0 = max(abs(float(x)) for x in rel0[i] + rel0[j])
             # |d0^2 - d1^2| <= 2 |d| |delta| with |d| <= the cell diameter and |delta| the position bound above
-            dtol = 8 * (ub * sc + _ep(kap, s0, 3 * sc, omax) + 3 * cl) * 3 * sc
+            dtol = 8 * (ub * sc + _ep(kap, s0, 3 * sc, omax) + 3 * cl + seps * 3 * sc) * 3 * sc
             if _over('normalize:distance', abs(d0 - d1), dtol):
                 return fail('normalize:distance', f'nearest-image distance between atoms {i} and {j} changed from '
                             f'{math.sqrt(float(d0))!r} to {math.sqrt(float(d1))!r}')
@@ -1515,21 +2055,137 @@ def _hist_clauses(ctx, hist, report=True):
             return key, what
 
         if c['op'] == 'wrap':
-            res = _wrap_clauses_sys(system, exact, fail)
+            res = _wrap_clauses_sys(system, exact, fail, ret=c.get('ret', 'kw'))
         elif c['op'] == 'norm' and all(system.pbc):
-            res = _norm_clauses_sys(system, fail)
+            res = _norm_clauses_sys(system, fail, ret=c.get('ret', 'kw'))
         else:
-            res = None
-            try:
-                _apply(system, c)
-            except cm.InfraError:
-                raise
-            except Exception:  # noqa  (partially periodic normalize may refuse; box operations are not clauses)
+            res = _other_clauses(system, c, exact, fail)
+            if res == 'stop':
                 return None
         if res:
             return res
         exact = exact and _keeps_exact(c, before, system.box.vects.tolist())
     return None
+
+
+def _other_clauses(system, c, exact, fail):
+    """operations that are not wrap / normalize: what they must leave alone, what they must refuse, and for
+    box_set(scale=...) the relative (True) or absolute (False) positions held fixed."""
+    import numpy as np
+    name = c['op']
+    snap0 = _snap(system)
+    try:
+        obs = _apply(system, c)
+    except cm.InfraError:
+        raise
+    except Exception:  # noqa  (partially periodic normalize may refuse; a failed box operation ends the history)
+        return 'stop'
+    if isinstance(obs, np.ndarray):
+        _scribble(obs)
+    snap1 = _snap(system)
+    if c.get('_handed_modified'):
+        return fail('aliasing:handed-in-array-modified', f'the call wrote to the array(s) it was handed (argument '
+                    f'{c["_handed_modified"]})')
+    if not (np.isfinite(snap1['vects']).all() and np.isfinite(snap1['origin']).all()
+            and np.isfinite(snap1['props']['pos']).all()):
+        return fail('aliasing:handed-in-array-kept', 'the object kept a reference to an array it was handed or handed '
+                    'out: overwriting that array afterwards changed the state of the system (box '
+                    f'{snap1["vects"].tolist()}, origin {snap1["origin"].tolist()})')
+    if name in ('peek', 'spos', 'norm', 'badscale'):
+        bad = _same_snap(snap0, snap1)
+        if bad:
+            return fail('state:read-writes', f'{name} {c.get("what", "")} changed {bad} of the system')
+        if name == 'badscale' and obs != 'TypeError':
+            return fail('refusal:box_set-scale-type', f'box_set(scale={c["scale"]!r}) was {obs} (the documented TypeError '
+                        'for a scale that is not a bool is gone)')
+        return None
+    if name == 'move':
+        if snap1['props']['pos'].tolist() != c['P']:
+            return fail('state:positions-assignment', f'positions after the assignment ({c.get("how")}) are '
+                        f'{snap1["props"]["pos"].tolist()}, assigned {c["P"]}')
+        return None
+    if name not in ('boxset', 'setvects', 'setorigin'):
+        return None
+    bad = _same_snap(snap0, snap1, skip=('vects', 'origin', 'pos'))
+    if bad:
+        return fail('boxset:carried', f'{name} changed {bad}')
+    # the box is what was asked for (the setter zeroes components below 1e-9 of the largest one)
+    if name == 'setorigin':
+        wantV, wanto = snap0['vects'], np.array(c['origin'], dtype=float)
+    elif name == 'setvects':
+        wantV, wanto = np.array(c['V'], dtype=float), snap0['origin']
+    else:
+        wantV, wanto = np.array(c['V'], dtype=float), np.array(c['o'], dtype=float)
+    gotV, goto = snap1['vects'], snap1['origin']
+    m = float(np.abs(wantV).max())
+    okV = all(a == b or (a == 0 and abs(b) <= CLEAN * m) for a, b in zip(gotV.ravel().tolist(), wantV.ravel().tolist()))
+    if not okV or not np.array_equal(goto, wanto):
+        return fail('boxset:box', f'{name} ({c.get("how", "")}, scale={c.get("scale")}) asked for vects {wantV.tolist()} '
+                    f'origin {wanto.tolist()}, the box now has {gotV.tolist()} / {goto.tolist()}')
+    scaled = name == 'boxset' and bool(c['scale'])
+    if not scaled:
+        if not np.array_equal(snap0['props']['pos'], snap1['props']['pos']):
+            return fail('boxset:absolute-positions', f'{name} (scale False) changed the Cartesian positions')
+        return None
+    V0, o0 = _fm(snap0['vects']), _fv(snap0['origin'])
+    V1, o1 = _fm(gotV), _fv(goto)
+    if _det(V0) == 0 or _det(V1) == 0:
+        return None
+    V0i, V1i = _inv(V0), _inv(V1)
+    k0, k1 = _kappa(V0), _kappa(V1)
+    r0, r1 = _colsum(V0i), _colsum(V1i)
+    om0, om1 = max(abs(float(x)) for x in o0), max(abs(float(x)) for x in o1)
+    for i, (p, q) in enumerate(zip(snap0['props']['pos'], snap1['props']['pos'])):
+        s0 = _rel(_fv(p), V0, V0i, o0)
+        s1 = _rel(_fv(q), V1, V1i, o1)
+        smax = max(abs(float(x)) for x in s0)
+        tol = _er(k0, smax, om0, r0) + _er(k1, smax, om1, r1)
+        for k in range(3):
+            d = abs(float(s0[k] - s1[k]))
+            if (exact and (c.get('same') or c.get('gridkeep')) and d != 0) or _over('boxset:relative-positions', d, tol):
+                return fail('boxset:relative-positions', f'box_set({c.get("how")}, scale=True): relative coordinate {k} of '
+                            f'atom {i} went from {float(s0[k])!r} to {float(s1[k])!r} (rounding bound {tol:.3g})')
+    return None
+
+
+def _env_clauses(ctx, case):
+    """wrap / normalize convert no units: the same call under other working units gives bitwise the same result."""
+    import numpy as np
+    import atomman.unitconvert as uc
+
+    def run():
+        out = []
+        for op in ('wrap', 'norm'):
+            sysm = _build(case)
+            try:
+                if op == 'wrap':
+                    fl = sysm.wrap(return_imageflags=True)
+                    out.append((fl.tolist(), sysm.atoms.view['pos'].tolist(), sysm.box.vects.tolist(), sysm.box.origin.tolist()))
+                else:
+                    new, T = sysm.normalize(return_transform=True)
+                    out.append((T.tolist(), new.atoms.view['pos'].tolist(), new.box.vects.tolist(), new.box.origin.tolist()))
+            except Exception as e:  # noqa
+                out.append(type(e).__name__)
+        return out
+
+    ref = run()
+    for units in ({'length': 'nm', 'mass': 'kg', 'energy': 'J', 'charge': 'C'}, {'seed': 'SI'},
+                  {'length': 'pm', 'mass': 'g', 'time': 'fs'}, {'seed': 12345}):
+        try:
+            uc.reset_units(**units)
+            got = run()
+        finally:
+            uc.reset_units(length='angstrom', mass='amu', energy='eV', charge='e')       # atomman's default working units
+        if got != ref:
+            which = 'wrap' if got[0] != ref[0] else 'normalize'
+            ctx.violate('environment:working-units', f'{which} (pbc {case["pbc"]}) gives a different result under working '
+                        f'units {units}: {got[0 if which == "wrap" else 1]} instead of {ref[0 if which == "wrap" else 1]}',
+                        {'op': 'env', 'case': case, 'units': units})
+            return
+
+
+RETS_W = ('kw', 'pos', 'none', 'false')
+RETS_N = ('kw', 'style', 'fn', 'none', 'fnnone')
 
 
 def search(ctx, broken):
@@ -1538,12 +2194,46 @@ def search(ctx, broken):
     for it in range(ctx.n(12, 200) * mult):
         for pbc in PBCS:
             case = _grid_case(rng, pbc) if it % 2 == 0 else _float_case(rng, pbc)
+            case['ret'] = RETS_W[it % 4] if it >= 4 else 'kw'
             ctx.stats.case('oracle:wrap', _line('wrap', case))
             _wrap_clauses(ctx, case)
     for it in range(ctx.n(60, 1000) * mult):
         case = _grid_case(rng, (True, True, True)) if it % 4 == 0 else _float_case(rng, (True, True, True))
+        case['ret'] = RETS_N[it % 5] if it >= 10 else 'kw'
         ctx.stats.case('oracle:normalize', _line('norm', case))
         _norm_clauses(ctx, case)
+    # the same clauses over magnitudes: whole cases rescaled by exact powers of two
+    for it in range(ctx.n(6, 60) * mult):
+        for k in SCALES:
+            pbc = rng.choice(PBCS)
+            case = _rescale(_grid_case(rng, pbc) if it % 2 == 0 else _float_case(rng, pbc), k)
+            ctx.stats.case('oracle:wrap:scale', _line('wrap', case))
+            _wrap_clauses(ctx, case)
+            case = _rescale(_grid_case(rng, (True, True, True)) if it % 3 == 0 else _float_case(rng, (True, True, True)), k)
+            ctx.stats.case('oracle:normalize:scale', _line('norm', case))
+            _norm_clauses(ctx, case)
+    # input forms: integer-typed / float32 / list / tuple / non-contiguous / read-only positions, pbc and box spellings
+    for it in range(ctx.n(4, 40) * mult):
+        for form in POSFORMS:
+            pbc = rng.choice(PBCS)
+            if form != 'readonly':                # (wrap works in place: a read-only array cannot be wrapped)
+                case = _form_case(rng, pbc, form)
+                ctx.stats.case('oracle:wrap:form:' + form, (form, _line('wrap', case)))
+                _wrap_clauses(ctx, case)
+            case = _form_case(rng, (True, True, True), form)
+            ctx.stats.case('oracle:normalize:form:' + form, (form, _line('norm', case)))
+            _norm_clauses(ctx, case)
+    # refusals: exactly singular cells
+    for it in range(ctx.n(10, 100) * mult):
+        case = _singular_case(rng, rng.choice(PBCS))
+        ctx.stats.case('oracle:singular', _line('wrap', case), nontrivial=False)
+        _wrap_clauses(ctx, case)
+        _norm_clauses(ctx, dict(case, pbc=[True, True, True]))
+    # environment: non-default working units
+    for it in range(ctx.n(6, 40) * mult):
+        case = _float_case(rng, rng.choice(PBCS), far=False) if it % 2 else _grid_case(rng, rng.choice(PBCS))
+        ctx.stats.case('oracle:units', _line('wrap', case))
+        _env_clauses(ctx, case)
     for it in range(ctx.n(150, 2500) * mult):
         h = _gen_hist(rng, 'grid' if it % 3 == 0 else 'float')
         ctx.stats.case('oracle:history', (_hist_name(h), _line('hist', h['case'])))
@@ -1575,6 +2265,10 @@ def replay(ctx, payload):
                     print('replay: model/implementation disagree:', d.what)
             continue
         case = r['case']
+        if r.get('op') == 'env':
+            _env_clauses(ctx, case)
+            print('replay working units', r.get('units'), '->', [v.what for v in ctx.violations] or 'same result')
+            continue
         f = _wrap_clauses if r.get('op') == 'wrap' else _norm_clauses
         res = f(ctx, case)
         print('replay', r.get('op'), 'pbc', case['pbc'], '->', res or 'all clauses hold')
